@@ -111,7 +111,7 @@ def conv_script(s):
 FN = {"any": "FAny", "max": "FMax", "min": "FMin", "count": "FCount", "toFloat64": "FToFloat64", "isNotNull": "FIsNotNull",
       "toFloat64OrNull": "FToFloat64OrNull", "toFloat64OrZero": "FToFloat64OrZero", "avgIf": "FAvgIf", "maxIf": "FMaxIf",
       "minIf": "FMinIf", "sumIf": "FSumIf", "cityHash64": "FCityHash64", "unhex": "FUnhex", "groupArray": "FGroupArray",
-      "groupUniqArray": "FGroupUniqArray", "argMin": "FArgMin", "lower": "FLower", "hex": "FHex", "arrayMap": "FArrayMap"}
+      "groupUniqArray": "FGroupUniqArray", "argMin": "FArgMin", "lower": "FLower", "hex": "FHex", "arrayMap": "FArrayMap", "uniqExact": "FUniqExact"}
 BINOP = {"%": "BMod", "+": "BAdd", "-": "BSub", "/": "BDiv"}
 TOK = re.compile(r"\s*(?:(?P<id>[A-Za-z_][A-Za-z0-9_.]*)|(?P<num>[0-9]+(?:\.[0-9]+)?)|(?P<str>'[^'\\]*')|(?P<arrow>->)|(?P<p>[(),%+\-/]))")
 
@@ -286,7 +286,8 @@ ERRS = [("unsupported attribute", "EUnsupportedAttr"), ("unsupported statement",
         ("time: ", "EBadDuration"), ("strconv.ParseFloat", "EBadNumber"),
         ("invalid character", "EUnquote"), ("unexpected end of JSON", "EUnquote"), ("json: ", "EUnquote"),
         ("complex requests", "EComplexNotSupported"), ("requests like `{} | ", "EEmptySelAgg"),
-        ("requests like `{} || ", "EEmptySelOr"), ("requests like `... || {}`", "EOrEmptySel")]
+        ("requests like `{} || ", "EEmptySelOr"), ("requests like `... || {}`", "EOrEmptySel"),
+        ("the aggregated attribute is missing", "EAggNoAttr")]
 
 
 def err_class(msg):
@@ -344,18 +345,135 @@ def conv_mode(c):
     return {"plan": "MSearch", "tags": "MTags"}.get(c["mode"]) or "(MValues %s)" % cs(c["key"])
 
 
+# ------------------------------------------------------------------ generated attribute-index databases
+def script_terms(ast):
+    """[(label, op, value json)] of every selector, [aggregator json]"""
+    terms, aggs = [], []
+
+    def exp(e):
+        if e is None:
+            return
+        if e["head"] is not None:
+            terms.append((e["head"]["label"], e["head"]["op"], e["head"]["val"]))
+        exp(e["chead"])
+        exp(e["tail"])
+    s = ast
+    while s is not None:
+        exp(s["head"]["attr"])
+        if s["head"]["agg"] is not None:
+            aggs.append(s["head"]["agg"])
+        s = s["tail"]
+    return terms, aggs
+
+
+def strip_scope(label):
+    for p in ("span.", "resource.", "."):
+        if label.startswith(p):
+            return label[len(p):]
+    return "name" if label == "name" else None
+
+
+def dec_str(x):
+    from decimal import Decimal
+    d = Decimal(x).quantize(Decimal("0.000001")).normalize()
+    t = format(d, "f")
+    return "0" if t in ("-0", "") else t
+
+
+def gen_db(c, rnd):
+    import datetime
+    from decimal import Decimal, InvalidOperation
+    terms, aggs = script_terms(c["ast"])
+    pools = {}
+    durs = [1, 1000, 500000000, 2000000000]
+    for label, op, v in terms:
+        k = strip_scope(label)
+        if k is None:
+            if v["dur"] is not None:
+                durs += [v["dur"] - 1, v["dur"], v["dur"] + 1]
+            continue
+        pool = pools.setdefault(k, ["zz"])
+        if v["s"] is not None:
+            if op in ("=~", "!~"):
+                pool += ["v1", "vv", "abc", "7", "a", "b", "xay", ""]
+            elif v["unq"] is not None:
+                pool.append(unhex(v["unq"]).decode("utf8", "replace"))
+        elif v["f"]:
+            try:
+                th = Decimal(v["f"])
+                pool += [dec_str(th), dec_str(th + 1), dec_str(th - 1), dec_str(th + Decimal("0.000001")), "abc"]
+            except InvalidOperation:
+                pass
+    for a in aggs:
+        if a["attr"] == "duration":
+            if a["durf"]:
+                d = int(float(a["durf"]))
+                durs += [d - 1, d, d + 1, 2 * d]
+        elif a["attr"]:
+            k = a["attr"]
+            for p in ("span.", "resource.", "."):       # the three sequential strips of aggregator()
+                if k.startswith(p):
+                    k = k[len(p):]
+            pool = pools.setdefault(k, [])
+            try:
+                th = Decimal(a["num"])
+                pool += [dec_str(th), dec_str(th + 1), dec_str(th - 1), dec_str(2 * th), "nan-ish"]
+            except InvalidOperation:
+                pool += ["1", "2"]
+    if not pools:
+        pools["zz"] = ["zz"]
+    keys = sorted(pools)
+    ctx = c["ctx"]
+    cached = ctx["cached"] or []
+    rows = []
+    ntr = rnd.randint(1, 3)
+    for t in range(ntr):
+        tid = rnd.choice(cached) if cached and rnd.random() < 0.3 else "t%d" % (t + 1)
+        if any(r["trace"] == tid for r in rows):
+            continue
+        for sidx in range(rnd.randint(1, 3)):
+            x = rnd.random()
+            if x < 0.8:
+                ts = ctx["from_ns"] + rnd.randrange(0, ctx["to_ns"] - ctx["from_ns"])
+            elif x < 0.9:
+                ts = rnd.choice([ctx["from_ns"] - 1, ctx["from_ns"]])
+            else:
+                ts = rnd.choice([ctx["to_ns"], ctx["to_ns"] - 1, ctx["to_ns"] + 5])
+            dur = max(0, rnd.choice(durs))
+            date = datetime.datetime.fromtimestamp(ts // 10**9, datetime.timezone.utc).strftime("%Y-%m-%d")
+            ks = rnd.sample(keys, min(len(keys), rnd.randint(1, 3)))
+            for k in ks:
+                rows.append({"date": date, "key": k, "val": rnd.choice(pools[k]), "trace": tid, "span": "s%d" % (sidx + 1 + (0 if rnd.random() < 0.5 else 3 * t)), "ts": ts, "dur": dur})
+    # rows of one span must agree on timestamp and duration (the writer copies them from the span)
+    seen = {}
+    for r in rows:
+        k = (r["trace"], r["span"])
+        if k in seen:
+            r["ts"], r["dur"], r["date"] = seen[k]
+        else:
+            seen[k] = (r["ts"], r["dur"], r["date"])
+    rnd.shuffle(rows)
+    return rows
+
+
+def conv_db(rows):
+    return coq_list(["{| r_date := %s; r_key := %s; r_val := %s; r_trace := %s; r_span := %s; r_ts := (%d)%%Z; r_dur := (%d)%%Z |}" % (
+        cs(r["date"]), cs(r["key"]), cs(r["val"]), cs(r["trace"]), cs(r["span"]), r["ts"], r["dur"]) for r in rows])
+
+
 def case_to_coq(c, stats, full=True):
-    return "{| c_id := %d; c_q := %s; c_mode := %s; c_ctx := %s; c_obs := %s |}" % (
-        c["id"], conv_script(c["ast"]), conv_mode(c), conv_ctx(c["ctx"]), coq_list(conv_obs(c, stats, full)))
+    return "{| c_id := %d; c_q := %s; c_mode := %s; c_ctx := %s; c_obs := %s; c_dbs := %s |}" % (
+        c["id"], conv_script(c["ast"]), conv_mode(c), conv_ctx(c["ctx"]), coq_list(conv_obs(c, stats, full)),
+        coq_list([conv_db(d) for d in c.get("dbs", [])]))
 
 
 HEADER = ("From Coq Require Import List ZArith String Ascii Bool Uint63.\n"
-          "From Qryn Require Import model.TqSql model.Traceql model.TraceqlPlan model.TraceqlCase.\n"
+          "From Qryn Require Import model.TqSql model.Traceql model.TraceqlPlan model.TraceqlSem model.TraceqlCase.\n"
           "Import ListNotations.\nOpen Scope string_scope.\n")
 
 
 def eval_text(ck, name, cases, stats, full=lambda c: True):
-    """returns (mismatch pairs, spec violation ids, raw out)"""
+    """returns (mismatch pairs, syntax violation ids, semantic violation pairs, raw out)"""
     global INTERN
     INTERN = Interner()
     defs = []
@@ -363,18 +481,20 @@ def eval_text(ck, name, cases, stats, full=lambda c: True):
         defs.append("Definition c%d : case := %s." % (c["id"], case_to_coq(c, stats, full(c))))
     txt = (HEADER + INTERN.definitions() + "\n" + "\n".join(defs) + "\nDefinition cases : list case := " + coq_list(["c%d" % c["id"] for c in cases]) + ".\n"
            "Definition M := Eval vm_compute in mismatches cases.\nPrint M.\n"
-           "Definition V := Eval vm_compute in spec_violations cases.\nPrint V.\n")
+           "Definition V := Eval vm_compute in spec_violations cases.\nPrint V.\n"
+           "Definition W := Eval vm_compute in sem_violations cases.\nPrint W.\n")
     rc, out = ck.coq_eval(name, txt)
     if rc != 0:
-        return None, None, out
+        return None, None, None, out
     flat = " ".join(out.split())
     m = re.search(r"M = (\[.*?\]|nil)\s*: list \(Z \* Z\)", flat)
     v = re.search(r"V = (\[.*?\]|nil)\s*: list Z", flat)
-    if not m or not v:
-        return None, None, out
-    pairs = [(int(a), int(b)) for a, b in re.findall(r"\((-?\d+)(?:%Z)?, (-?\d+)(?:%Z)?\)", m.group(1))]
+    w = re.search(r"W = (\[.*?\]|nil)\s*: list \(Z \* Z\)", flat)
+    if not m or not v or not w:
+        return None, None, None, out
+    prs = lambda t: [(int(a), int(b)) for a, b in re.findall(r"\((-?\d+)(?:%Z)?, (-?\d+)(?:%Z)?\)", t)]
     ids = [int(x) for x in re.findall(r"-?\d+", v.group(1))]
-    return pairs, ids, out
+    return prs(m.group(1)), ids, prs(w.group(1)), out
 
 
 def qtext(c):
@@ -410,7 +530,12 @@ def run_text(ck):
     cases += load(outp)
     parsed = [c for c in cases if not c.get("parse_err")]
     stats = {}
-    mism, viol = [], []
+    mism, viol, sem = [], [], []
+    import random
+    for c in parsed:
+        ok = c["mode"] == "plan" and c.get("obs") and all("sql" in o for o in c["obs"])
+        rnd = random.Random(ck.seed * 1000003 + c["id"])
+        c["dbs"] = ((c.get("dbs") or []) + [gen_db(c, rnd) for _ in range(ck.n(2, 4))]) if ok else []
     shard = 400
     bad_dump = []
     usable = []
@@ -425,30 +550,32 @@ def run_text(ck):
     nfull = ck.n(40, 400)
     fullids = set(c["id"] for c in usable if c["id"] >= 1000000) | set(c["id"] for c in usable[:nfull])
     for k in range(0, len(usable), shard):
-        m, v, out = eval_text(ck, "C11_text_%d" % (k // shard), usable[k:k + shard], stats, full=lambda c: c["id"] in fullids)
+        m, v, w, out = eval_text(ck, "C11_text_%d" % (k // shard), usable[k:k + shard], stats, full=lambda c: c["id"] in fullids)
         if m is None:
             ck.obligation("query cases evaluated inside Coq", False, out[-1500:])
             return
         mism += m
         viol += v
+        sem += w
     # second pass: every case that disagrees, or whose statement an oracle rejected, with the implementation's own object tree
-    again = sorted(set([i for i, _ in mism] + viol) - fullids)
+    again = sorted(set([i for i, _ in mism] + viol + [i for i, _ in sem]) - fullids)
     if again:
         sub = [c for c in usable if c["id"] in again][:300]
-        m, v, out = eval_text(ck, "C11_text_again", sub, stats)
+        m, v, w, out = eval_text(ck, "C11_text_again", sub, stats)
         if m is None:
             ck.obligation("disagreeing cases re-evaluated with their object trees", False, out[-1500:])
             return
         redo = set(c["id"] for c in sub)
         mism = [x for x in mism if x[0] not in redo] + m
         viol = [x for x in viol if x not in redo] + v
+        sem = [x for x in sem if x[0] not in redo] + w
     byid = {c["id"]: c for c in cases}
     codes = {1: "outcome class (statement / error / panic)", 2: "SQL text of the model's plan", 3: "object tree does not print to the observed text", 4: "library values"}
     for code in (1, 2, 3, 4):
         ids = [i for i, cd in mism if cd == code]
         ck.obligation("correspondence on %d queries: %s" % (len(usable), codes[code]), not ids,
                       "ids %s e.g. %r" % (ids[:8], qtext(byid[ids[0]]) if ids else ""))
-    return cases, parsed, usable, mism, viol, stats, byid
+    return cases, parsed, usable, mism, viol, sem, stats, byid
 
 
 def run(ck):
@@ -465,7 +592,7 @@ def run(ck):
     r = run_text(ck)
     if r is None:
         return
-    cases, parsed, usable, mism, viol, stats, byid = r
+    cases, parsed, usable, mism, viol, sem, stats, byid = r
     ck.obligation("syntax oracle wf_sel accepts every statement the planners built", not viol, "ids %s" % viol[:10])
     if viol:
         worst = min((byid[i] for i in viol), key=lambda c: len(c["q"]))
@@ -477,6 +604,30 @@ def run(ck):
         i = mism[0][0]
         ck.violation({"property": "C11", "kind": "model/implementation disagree", "query": qtext(byid[i]), "codes": [cd for j, cd in mism if j == i],
                       "case": {k: byid[i][k] for k in ("q", "mode", "key", "ctx", "calls")}}, no_input=True)
+    # semantic oracle: the implementation's statement, evaluated over generated attribute-index contents, against the meaning of the script
+    judged = [c for c in usable if c.get("dbs")]
+    bad = [(i, cd) for i, cd in sem if cd in (1, 2)]
+    rounded = [i for i, cd in sem if cd == 3]
+    ck.obligation("semantic oracle: on %d searches x %d generated databases the statement selects the traces and spans the script describes" % (
+        len(judged), ck.n(2, 4)), not bad, "ids %s e.g. %r" % (bad[:8], qtext(byid[bad[0][0]]) if bad else ""))
+    if bad:
+        i, cd = min(bad, key=lambda x: (len(byid[x[0]]["q"]), x[0]))
+        w = byid[i]
+        ck.violation({"property": "C11", "kind": "statement does not evaluate (ClickHouse would reject it)" if cd == 1 else "statement selects other traces/spans than the script describes",
+                      "query": qtext(w), "ctx": w["ctx"], "databases": w["dbs"],
+                      "sql": [unhex(o["sql"]).decode() for o in w["obs"] if "sql" in o][:1],
+                      "explanation": "model/TraceqlCase.v sem_code: eval_sel of the implementation's statement (CTE index_grouped) over these index rows vs traceql_sem",
+                      "replay": "harness traceql --cases <file with case>; then evaluate with the databases above",
+                      "case": {k: w[k] for k in ("q", "mode", "key", "ctx", "calls")}})
+    if rounded:
+        fid = "float-literal-6-decimals"
+        if fid in ck.known_findings():
+            ck.report_known(fid, "%d generated searches with a numeric literal of more than six decimals select by the rounded literal, e.g. %r" % (
+                len(rounded), qtext(byid[min(rounded, key=lambda i: len(byid[i]["q"]))])))
+        else:
+            w = byid[min(rounded, key=lambda i: len(byid[i]["q"]))]
+            ck.violation({"property": "C11", "kind": "numeric literal reaches ClickHouse rounded to six decimals", "query": qtext(w), "databases": w["dbs"], "ctx": w["ctx"]})
+    ck.extra["semantic_oracle"] = {"searches_judged": len(judged), "databases_each": ck.n(2, 4), "disagree": len(bad), "rounded_literal_only": len(rounded)}
     hist = {}
     distinct = set()
     for c in cases:
